@@ -182,6 +182,7 @@ def draw_background(stream, bg, clip_box=True, bleed=None, marks=()):
                 stream.fill()
 
         # Draw crop marks and crosses.
+        layers = bg.layers
         if bleed and marks:
             x, y, width, height = bg.layers[-1].painting_area
             half_bleed = {key: value * 0.5 for key, value in bleed.items()}
@@ -246,9 +247,9 @@ def draw_background(stream, bg, clip_box=True, bleed=None, marks=()):
             layer = BackgroundLayer(
                 image, size, position, repeat, unbounded, painting_area,
                 positioning_area, clipped_boxes)
-            bg.layers.insert(0, layer)
+            layers = [layer, *layers]
         # Paint in reversed order: first layer is "closest" to the viewer.
-        for layer in reversed(bg.layers):
+        for layer in reversed(layers):
             draw_background_image(stream, layer, bg.image_rendering)
 
 
